@@ -95,6 +95,9 @@ def run_task(task, repo, use_cvc5=True):
                   task.loopspecs or {})
         try:
             inp = task.setup(ex)
+            ex.loopspecs = task.loopspecs or {}
+            ex.contracts.update(task.contracts or {})
+            ex.inline = set(task.inline or ())
             if first:
                 first = False
                 s = z3.Solver()
